@@ -33,7 +33,10 @@ def jobs(tier):
     J.append(seq("1,0,0,0", len=4, keys=4, hmap=1, alpha_seq=1, nresize=12, flags=1, workers=8))
     for mx in (1, 2, 4):   # lazy growth must stop at max_nr_buckets
         J.append(seq(len=6, keys=4, hmap=1, alpha_seq=1, nresize=3, flags=1, maxb=mx, workers=8))
-        J.append(seq(len=6, keys=4, hmap=0, alpha_seq=1, nresize=3, flags=3, count_commit_order=0, maxb=mx, workers=8))
+        J.append(seq(len=9, keys=1, hmap=0, alpha_seq=1, nresize=2, flags=3, count_commit_order=0, maxb=mx, workers=8))
+    # lazy grow / shrink arbitration with the worker never scheduled (targets pile up while size stays put)
+    J.append(seq(len=9 if q else 10, keys=1, hmap=0, alpha_seq=1, nresize=2, flags=3, count_commit_order=0, init=8, nosettle=1, workers=8))
+    J.append(seq(len=8, keys=2, hmap=1, alpha_seq=1, nresize=4, flags=3, count_commit_order=0, init=4, nosettle=1, workers=8))
     J.append(seq("1,0,0,0", len=4, keys=2, hmap=1, alpha_seq=1, nresize=6, flags=3, count_commit_order=0, workers=8))
     # (b) concurrent
     rd = prog((K_LOOKUP, 0), (K_LOOKUP, 1), (K_WALKALL, 0))
